@@ -1068,6 +1068,10 @@ func (e *Ev) derefLoc(p Term, n ast.Node) *Loc {
 	if p.Loc != nil {
 		return p.Loc
 	}
+	if p.T == nil {
+		e.errorf(n, "dereference of a term of unknown type (%s)", p.S)
+		return &Loc{Kind: "var", Name: "?"}
+	}
 	pt, ok := p.T.Underlying().(*types.Pointer)
 	if !ok {
 		e.errorf(n, "dereference of non-pointer %v", p.T)
